@@ -93,8 +93,21 @@ def run(chk):
             fr = rng.choice(frs)['frame'] if frs else good
             cases.append('dict-' + label)
             lines.append('dict=%s src=%s I B?a C force=%d src=%s I B?a C' % (hexs(dd), hexs(fr), rng.choice([0, 1, int.from_bytes(dd[4:8], 'little') if len(dd) >= 8 else 7]), hexs(fr)))
+    # structurally valid dictionaries whose repeat offsets contain a zero (the format does not allow it, the loader does not
+    # check): frames that use repeat-offset codes then select offset 0, which must end in an error, never in a loop
+    for zi in range(6 if thorough else 3):
+        d, info = synth.make_dictionary(rng, content=rng.bytes(rng.choice([33, 100, 1000])))
+        clen = len(info['content'])
+        reps = [[0, 0, 0], [5, 0, 8], [0, 4, 8], [1, 4, 0]][zi % 4]
+        dz = d[:len(d) - clen - 12] + b''.join(r.to_bytes(4, 'little') for r in reps) + d[len(d) - clen:]
+        for f in synth.make_dict_boundary_frames(rng, 40 if thorough else 20, info, name_dict=True):
+            if 'repcode' not in f.get('features', ()):
+                continue
+            cases.append('dict-zero-repeat-offset')
+            lines.append('dict=%s src=%s %s src=%s I Ba C' % (hexs(dz), hexs(f['frame']), rng.choice(['I B?a C', 'I B?b1 B?b1 B?a C', 'A100000', 'SI Zs,500']), hexs(good)))
     # implementation, both builds, with a deadline per batch; model
     outs = {}
+    nhang = 0
     for prof in ('release', 'debug'):
         res = []
         B = 150
@@ -103,8 +116,13 @@ def run(chk):
             if rc == 124 or len(r) != len(lines[s0:s0 + B]):
                 # find the case that does not terminate / crashes the process
                 for j, ln in enumerate(lines[s0:s0 + B]):
+                    if nhang >= 4:
+                        # enough programs that do not return have been reported: the rest of the batch is not run
+                        res += ['not-run']
+                        continue
                     rc1, r1, e1 = zh('prog', [ln], prof, timeout=20)
                     if rc1 != 0 or len(r1) != 1:
+                        nhang += 1
                         chk.violation('decoding did not return within 20 s or the process died (%s build, exit %s)' % (prof, rc1),
                                       {'component': 'malformed', 'program': ln[:300000], 'how': 'echo "<program>" | _build/cargo/%s/zh prog' % prof})
                         r1 = ['timeout']
